@@ -37,6 +37,9 @@ pub struct History {
     /// 0 MemoryStore, 1 reference store, 2 Option slot
     pub store: u8,
     pub steps: Vec<Step>,
+    /// the authenticator's user-validation method cannot test presence (U2F callers pass the presence flags themselves)
+    #[serde(default)]
+    pub no_presence_capability: bool,
 }
 
 fn app(i: u8) -> [u8; 32] {
@@ -55,7 +58,7 @@ struct Reg {
 }
 
 fn run_history<S: CredentialStore<PasskeyItem = Passkey> + Sync + Send>(ctx: &mut Ctx, store: S, single_slot: bool, h: &History, ref_handle: Option<RefStore>) -> Result<(), String> {
-    let uv = ScriptedUv::new(UvScript::verified());
+    let uv = ScriptedUv::new(UvScript { presence_enabled: !h.no_presence_capability, ..UvScript::verified() });
     let mut auth: Authenticator<S, ScriptedUv> = cer::build_authenticator(store, uv, &AuthCfg::default());
     let mut regs: Vec<Reg> = vec![];
     let mut ever: Vec<Vec<u8>> = vec![];
@@ -91,6 +94,18 @@ fn run_history<S: CredentialStore<PasskeyItem = Passkey> + Sync + Send>(ctx: &mu
                     Err(e) => return Err(format!("step {i}: registration with a {}-byte key handle failed with {e:?} on an infallible store", handle.len())),
                 };
                 ctx.class(if faulted { "register/succeeded although a store fault was armed" } else { "register" });
+                // "stores a credential for that application": what the store is told about the relying party is the application
+                if let Some(r) = &ref_handle {
+                    let want = b64url(&application);
+                    for call in r.log() {
+                        if let crate::rt::StoreCall::Save { rp_arg, cred_rp, result: Ok(()), .. } = call {
+                            if rp_arg != want || cred_rp != want {
+                                return Err(format!("step {i}: the store was handed relying party {rp_arg:?} (credential bound to {cred_rp:?}) for a registration of application {want:?}"));
+                            }
+                        }
+                    }
+                    r.clear_log();
+                }
                 let (x, y) = (resp.public_key.x, resp.public_key.y);
                 if resp.key_handle != *handle {
                     return Err(format!("step {i}: the response's key handle differs from the one supplied"));
@@ -326,7 +341,7 @@ fn history() -> impl Strategy<Value = History> {
         3 => (any::<[u8; 32]>(), proptest::option::weighted(0.8, any::<u16>()), proptest::collection::vec(any::<u8>(), 0..20), proptest::bool::weighted(0.1), prop_oneof![Just(0u32), Just(u32::MAX), Just(0x0102_0304), any::<u32>()], any::<u8>(), any::<u8>())
             .prop_map(|(challenge, known, unknown, wrong_app, counter, flags, p1)| Step::Authenticate { challenge, known, unknown, wrong_app, counter, flags, p1 }),
     ];
-    (0u8..3, proptest::collection::vec(step, 1..10)).prop_map(|(store, steps)| History { store, steps })
+    (0u8..3, proptest::collection::vec(step, 1..10), proptest::bool::weighted(0.25)).prop_map(|(store, steps, no_presence_capability)| History { store, steps, no_presence_capability })
 }
 
 fn frame() -> impl Strategy<Value = Frame> {
@@ -359,7 +374,7 @@ pub fn run(ctx: &mut Ctx) {
     }
     // every handle length, once
     for len in (0..=255usize).filter(|_| fs) {
-        let h = History { store: (len % 3) as u8, steps: vec![Step::Register { challenge: [len as u8; 32], app: 1, handle: vec![0xA5; len], reuse: None, fault: None }, Step::Authenticate { challenge: [7; 32], known: Some(0), unknown: vec![], wrong_app: false, counter: len as u32, flags: len as u8, p1: len as u8 }] };
+        let h = History { store: (len % 3) as u8, steps: vec![Step::Register { challenge: [len as u8; 32], app: 1, handle: vec![0xA5; len], reuse: None, fault: None }, Step::Authenticate { challenge: [7; 32], known: Some(0), unknown: vec![], wrong_app: false, counter: len as u32, flags: len as u8, p1: len as u8 }], no_presence_capability: false };
         if let Err(e) = check_history(ctx, &h) {
             ctx.violation("handle-lengths", json!(h), &e);
             break;
